@@ -1,6 +1,7 @@
 import OjgVerif.Sen.Lemmas
 import OjgVerif.Props.C03
 import OjgVerif.Gen.SenFacts
+import OjgVerif.Sen.LemmasCur
 /-! # C03 (SEN clause) — sen.Parse, sen.ParseReader and sen.Tokenize, however the input is chunked
 (model level)
 
@@ -18,6 +19,12 @@ delivers `chunks`.
   line, the BOM top-up rule included) depends only on the concatenation of the chunks. The error COLUMN
   is excluded: sen.ParseReader does not rebase the newline offset between read buffers (the sen suite
   pins it), which the model follows.
+* `chunks_irrelevant_current` (`_sen`): **the partial form for the REAL configuration** (both pinned fast paths
+  on — no Go entry point is `Repaired`): chunk independence for every input and chunking whose run and whose
+  one-piece run take no pinned fast-path deviation (`Sen.deviates`, a decidable predicate: no digit read by
+  the integer fast loop while the accumulator equals BigLimit, no bare token that began in an earlier read
+  buffer ended by a byte other than space, tab, CR, LF); `Sen.call_eq_repaired`: such a call IS the call of
+  the repaired machine.
 * `chunks_irrelevant_full_false_token`, `_int19`: with `tokSlow` or `fastInt` on (the code as it is) the
   statement is false; the witnesses are in corpus/C03sen.txt and are replayed against the Go code on
   every run (known findings C03sen-token-end-chunk, C03sen-int19);
@@ -441,5 +448,41 @@ theorem chunks_irrelevant_full_false_int19 : ¬ chunks_irrelevant_full := by
     [[91, 57], [50, 50, 51, 51, 55, 50, 48, 51, 54, 56, 53, 52, 55, 55, 53, 56, 48, 48, 46, 69, 50, 93]] rfl
   revert this
   decide +kernel
+
+/-! ## the real configuration -/
+
+/-- the code as it is: the newline skip is repaired (7b94de8); the integer fast loop and the token-end fast
+path are whatever they are -/
+def Current (cfg : Cfg) : Prop := cfg.nlSkip = false
+
+/-- **C03 (SEN clause), partial form for the REAL configuration** (sen.ParseReader, sen.Tokenizer.Load as they
+are, the two pinned fast paths on): the outcome of a reader entry point — documents or callbacks, error kind
+and line — depends only on the bytes delivered, not on how the reader splits them, for every input and
+chunking whose run and whose one-piece run take no pinned fast-path deviation (`Sen.deviates`: no digit read
+by the integer fast loop while the accumulator equals BigLimit — the 19th digit of an integer that begins
+922337203685477580 —, no bare token that began in an earlier read buffer ended by a byte other than space, tab,
+CR, LF) -/
+theorem chunks_irrelevant_current (cfg : Cfg) (hcur : Current cfg) (hr : cfg.reader = true) (prev : St)
+    (chunks : List Bytes) (h1 : deviates cfg prev chunks = false) (h2 : deviates cfg prev [chunks.flatten] = false) :
+    eraseCol (call refTables cfg prev chunks) = eraseCol (call refTables cfg prev [chunks.flatten]) := by
+  rw [call_eq_repaired cfg hcur prev chunks h1, call_eq_repaired cfg hcur prev _ h2]
+  exact chunks_irrelevant refTables cfg.rep ⟨rfl, rfl, hcur⟩ hr (by unfold Tables.bom refTables; split <;> rfl) prev chunks
+
+/-- the same over the regenerated `sen/maps.go` and BOM length tests -/
+theorem chunks_irrelevant_current_sen (cfg : Cfg) (hcur : Current cfg) (hr : cfg.reader = true) (prev : St)
+    (chunks : List Bytes) (h1 : deviates cfg prev chunks = false) (h2 : deviates cfg prev [chunks.flatten] = false) :
+    eraseCol (call senTables cfg prev chunks) = eraseCol (call senTables cfg prev [chunks.flatten]) := by
+  rw [sen_is_reference, sen_is_reference]
+  exact chunks_irrelevant_current cfg hcur hr prev chunks h1 h2
+
+/-- non-vacuity: `{"a":[1 true x]}` read in two pieces (the split falls inside the token `true`, which is
+ended by a space) takes no deviation; the witnesses of the two known findings do -/
+example : deviates { reader := true } {} [[123, 34, 97, 34, 58, 91, 49, 32, 116, 114], [117, 101, 32, 120, 93, 125]] = false := by
+  decide +kernel
+example : deviates { reader := true } {} [[123, 97], [44, 58, 49, 125]] = true := by decide +kernel
+example : deviates { reader := true } {}
+    [[91, 57, 50, 50, 51, 51, 55, 50, 48, 51, 54, 56, 53, 52, 55, 55, 53, 56, 48, 48, 46, 69, 50, 93]] = true := by
+  decide +kernel
+
 
 end OjgVerif.C03sen
